@@ -14,6 +14,7 @@ package main
 // exactly as before this file existed.
 
 import (
+	"fmt"
 	"go/token"
 )
 
@@ -56,5 +57,59 @@ func harnessDispatch(key, model string, prev externalFn) externalFn {
 func init() {
 	for key, model := range harnessModels {
 		externals[key] = harnessDispatch(key, model, externals[key])
+	}
+}
+
+// ---- *os.File over the harness file-system model: a model handle is kept in
+// the interpreter's ghost state, keyed by the (interpreter) address of the
+// os.File object handed to the code under test.
+
+func osFileHandle(fr *frame, f value) value {
+	p, ok := f.(*value)
+	if !ok || p == nil {
+		nilDeref()
+	}
+	h, ok := fr.i.ghost[fmt.Sprintf("osfile:%p", p)]
+	if !ok {
+		panic(unsupported{"operation on an *os.File that was not opened through the file-system model"})
+	}
+	return h
+}
+
+func modelCall(fr *frame, model string, args ...value) value {
+	fn := fr.i.lp.harnessPkg.Func(model)
+	if fn == nil {
+		panic(unsupported{"real file I/O (the harness package defines no model " + model + ")"})
+	}
+	return call(fr.i, fr, token.NoPos, fn, args)
+}
+
+func init() {
+	openFile := func(fr *frame, name, flag, perm value) value {
+		res := modelCall(fr, "verifFSOpenFile", name, flag, perm).(tuple)
+		if e := res[1].(iface); e.t != nil {
+			return tuple{(*value)(nil), e}
+		}
+		osPkg := fr.i.prog.ImportedPackage("os")
+		var cell value = zero(osPkg.Type("File").Type())
+		p := &cell
+		fr.i.ghost[fmt.Sprintf("osfile:%p", p)] = res[0]
+		return tuple{p, iface{}}
+	}
+	externals["os.OpenFile"] = func(fr *frame, a []value) value { return openFile(fr, a[0], a[1], a[2]) }
+	externals["os.Create"] = func(fr *frame, a []value) value {
+		return openFile(fr, a[0], int(0x242) /* O_RDWR|O_CREATE|O_TRUNC */, uint32(0o666))
+	}
+	externals["(*os.File).Write"] = func(fr *frame, a []value) value {
+		return modelCall(fr, "verifFSFileWrite", osFileHandle(fr, a[0]), a[1])
+	}
+	externals["(*os.File).WriteString"] = func(fr *frame, a []value) value {
+		return modelCall(fr, "verifFSFileWrite", osFileHandle(fr, a[0]), []value(bytesOf(a[1])))
+	}
+	externals["(*os.File).Sync"] = func(fr *frame, a []value) value {
+		return modelCall(fr, "verifFSFileSync", osFileHandle(fr, a[0]))
+	}
+	externals["(*os.File).Close"] = func(fr *frame, a []value) value {
+		return modelCall(fr, "verifFSFileClose", osFileHandle(fr, a[0]))
 	}
 }
